@@ -101,6 +101,67 @@ var Seeds = map[string]string{
                "filter_ref": {"table": "allow_t", "column": "acct"}, "filter_arg": ["0x01"]}]
   }]
 }`,
+	// components under inputs whose type is NOT tuple (address, bytes32, uint256, empty) next to
+	// tuple, tuple[] and tuple[2], one to three levels deep: dig recurses whenever Components is
+	// non-empty (Input.ABIType, Input.Selected), whatever the type string says; the selected
+	// leaves carry filter_op contains with a filter_ref {integration, table, column} or a plain
+	// filter_arg.  The array-typed inputs live in an integration of their own (the block
+	// builder of the dynamic run covers static layouts only).
+	"oddcomps": `{
+  "pg_url": "postgres:///shovel",
+  "eth_sources": [{"name": "linea", "chain_id": 59144, "url": "http://127.0.0.1:8545"}],
+  "integrations": [{
+    "name": "regs", "enabled": true,
+    "sources": [{"name": "linea", "start": 4, "stop": 4}],
+    "table": {"name": "regs_t", "columns": [{"name": "racct", "type": "bytea"}]},
+    "event": {"name": "Reg", "type": "event",
+      "inputs": [{"indexed": true, "name": "r", "type": "address", "column": "racct"}]}
+  }, {
+    "name": "odd", "enabled": true,
+    "sources": [{"name": "linea", "start": 4, "stop": 4}],
+    "table": {"name": "odd_t", "columns": [{"name": "ca", "type": "bytea"}, {"name": "cb", "type": "bytea"},
+                                            {"name": "cu", "type": "bytea"}, {"name": "ce", "type": "bytea"},
+                                            {"name": "ct", "type": "bytea"}, {"name": "cn", "type": "numeric"}]},
+    "event": {"name": "Odd", "type": "event",
+      "inputs": [
+        {"name": "pa", "type": "address", "components": [
+          {"name": "pa1", "type": "address", "column": "ca", "filter_op": "contains",
+           "filter_ref": {"integration": "regs", "table": "regs_t", "column": "racct"}}]},
+        {"name": "pb", "type": "bytes32", "components": [
+          {"name": "pb1", "type": "", "components": [
+            {"name": "pb2", "type": "bytes32", "column": "cb", "filter_op": "contains",
+             "filter_ref": {"integration": "regs", "table": "regs_t", "column": "racct"}}]}]},
+        {"name": "pu", "type": "uint256", "components": [
+          {"name": "pu1", "type": "tuple", "components": [
+            {"name": "pu2", "type": "address", "components": [
+              {"name": "pu3", "type": "address", "column": "cu", "filter_op": "!contains",
+               "filter_ref": {"integration": "regs", "table": "regs_t", "column": "racct"}},
+              {"name": "pu4", "type": "uint256", "column": "cn"}]}]}]},
+        {"name": "pe", "type": "", "components": [
+          {"name": "pe1", "type": "address", "column": "ce", "filter_op": "contains",
+           "filter_arg": ["0x00000000000000000000000000000000000000aa"]}]},
+        {"name": "pt", "type": "tuple", "components": [
+          {"name": "pt1", "type": "address", "column": "ct", "filter_op": "contains",
+           "filter_ref": {"integration": "regs", "table": "regs_t", "column": "racct"}}]}]}
+  }, {
+    "name": "oddarr", "enabled": true,
+    "sources": [{"name": "linea", "start": 4, "stop": 4}],
+    "table": {"name": "oddarr_t", "columns": [{"name": "da", "type": "bytea"}, {"name": "db", "type": "bytea"},
+                                               {"name": "dc", "type": "bytea"}]},
+    "event": {"name": "OddArr", "type": "event",
+      "inputs": [
+        {"name": "qa", "type": "tuple[]", "components": [
+          {"name": "qa1", "type": "address", "column": "da", "filter_op": "contains",
+           "filter_ref": {"integration": "regs", "table": "regs_t", "column": "racct"}}]},
+        {"name": "qb", "type": "tuple[2]", "components": [
+          {"name": "qb1", "type": "bytes32", "components": [
+            {"name": "qb2", "type": "bytes32", "column": "db", "filter_op": "contains",
+             "filter_ref": {"integration": "regs", "table": "regs_t", "column": "racct"}}]}]},
+        {"name": "qc", "type": "address", "components": [
+          {"name": "qc1", "type": "address", "column": "dc", "filter_op": "contains",
+           "filter_arg": ["0x00000000000000000000000000000000000000bb"]}]}]}
+  }]
+}`,
 	"txtrace": `{
   "pg_url": "postgres:///shovel",
   "eth_sources": [{"name": "gnosis", "chain_id": 100, "url": "http://127.0.0.1:8545"}],
@@ -129,7 +190,7 @@ var Seeds = map[string]string{
 }
 
 // SeedOrder fixes the iteration order.
-var SeedOrder = []string{"erc20", "refs", "nested", "txtrace", "reftable"}
+var SeedOrder = []string{"erc20", "refs", "nested", "txtrace", "reftable", "oddcomps"}
 
 // Markers planted into configuration positions.  Hostile = contains a
 // character outside letters, digits, '_' and '-'.
